@@ -51,6 +51,14 @@ theorem outline_within_bounds {o : CurveOracle} (ho : o.Lawful) (pts : List Poin
     (hq : OnPath none (prims pts) q) : ∃ b, freshBnd o pts = some b ∧ b.Has q :=
   onPath_in_bndBox ho (Blocks.prims pts) q hq
 
+/-- `controlPointBounds` equals the independent computation: the plain min/max box over all the
+contour's points — through point-pen rotation, segment grouping, the implied closing line and
+implied quadratic points (which, being midpoints, never widen the box).  For every valid contour
+(closed without `move`, or open not ending in off-curves) that draws without error. -/
+theorem control_bounds_is_box_of_points (pts : List Point) (hshape : ReversibleShape pts)
+    (herr : drawErr pts = none) : freshCpb pts = boxOfPts (pts.map (·.pt)) :=
+  freshCpb_eq_boxOfPts pts hshape herr
+
 /-- The same two facts for a component (base glyph drawn through its transformation, nested
 components included): its `bounds` lie within its `controlPointBounds`. -/
 theorem component_bounds_within_control_bounds {o : CurveOracle} (ho : o.Lawful) (w : World) (k : Component)
@@ -79,6 +87,7 @@ example : OnPath none (prims Ex.closed) ⟨50, 0⟩ := by
   right; left
   exact ⟨1 / 2, by norm_num, by norm_num, by simp [Prim.at, Pt.lerp, lerp]; norm_num⟩
 example : freshCpb Ex.closed = some ⟨0, 0, 150, 140⟩ := by decide +kernel
+example : boxOfPts (Ex.opened.map (·.pt)) = some ⟨0, -5 / 8, 100, 60⟩ ∧ drawErr Ex.opened = none := by decide +kernel
 example : freshBnd hullOracle Ex.closed = some ⟨0, 0, 150, 140⟩ := by decide +kernel
 example : Component.bounds hullOracle Ex.world ⟨"base", ⟨-1, 0, 0, 1, 40, -7 / 2⟩⟩ = .ok (some ⟨-110, -7 / 2, 40, 273 / 2⟩) := by
   decide +kernel
@@ -249,6 +258,18 @@ theorem reverse_flips_direction_partial (pts : List Point) (hm : noMove pts = tr
   · unfold absR
     split_ifs <;> linarith
 
+/-- Reversing keeps `controlPointBounds` (closed contours with an on-curve point). -/
+theorem reverse_keeps_control_bounds (pts : List Point) (hm : noMove pts = true) (herr : drawErr pts = none)
+    (hon : hasOn pts = true) (h2 : 2 ≤ pts.length) (hclosed : isOpen pts = false) :
+    freshCpb (reversePoints pts) = freshCpb pts := by
+  have hshape : ReversibleShape pts := Or.inl ⟨hclosed, hm⟩
+  have hshape' : ReversibleShape (reversePoints pts) :=
+    Or.inl ⟨by rw [reversePoints_isOpen pts hshape]; exact hclosed, noMove_reversePoints pts hm⟩
+  rw [freshCpb_eq_boxOfPts _ hshape' (reverse_area pts hm herr hon h2).2, freshCpb_eq_boxOfPts _ hshape herr]
+  apply boxOfPts_perm
+  have := (reversePoints_perm pts hshape).map (fun c => c.1)
+  simpa [Point.core, List.map_map, Function.comp_def] using this
+
 /-- A closed contour keeps its first point first when reversed. -/
 theorem reverse_keeps_first_point (p0 : Point) (rest : List Point) (h : p0.seg ≠ some .move) :
     ((reversePoints (p0 :: rest)).map Point.core).head? = some p0.core :=
@@ -294,6 +315,20 @@ theorem setStartPoint_keeps_area (c c' : Contour) (i : Int) (h : c.setStartPoint
       have : onCurveCount c.points ≤ c.points.length := List.length_filter_le _ _
       omega
     exact freshArea_rotate c.points hm herr k p hp hon hlen
+
+/-- … nor `controlPointBounds`. -/
+theorem setStartPoint_keeps_control_bounds (c c' : Contour) (i : Int) (h : c.setStartPoint i = .ok c')
+    (hm : noMove c.points = true) (herr : drawErr c.points = none) (hclosed : isOpen c.points = false) :
+    freshCpb c'.points = freshCpb c.points := by
+  have hkeep := setStartPoint_keeps_points_and_closedness c c' i h hm
+  have herr' := (setStartPoint_keeps_area c c' i h hm herr).2
+  have hm' : noMove c'.points = true := by
+    simp only [noMove, List.all_eq_true, decide_eq_true_eq] at hm ⊢
+    intro p hp
+    exact hm p (hkeep.1.mem_iff.1 hp)
+  rw [freshCpb_eq_boxOfPts _ (Or.inl ⟨by rw [hkeep.2]; exact hclosed, hm'⟩) herr',
+    freshCpb_eq_boxOfPts _ (Or.inl ⟨hclosed, hm⟩) herr]
+  exact boxOfPts_perm (hkeep.1.map _)
 
 /-- An index that names an off-curve point is rejected (AssertionError), an index out of range too
 (IndexError) — in both cases nothing changes (`setStartPoint` returns no new contour). -/
